@@ -17,8 +17,11 @@ package limiter
 //@ func core.Strategy.SetLimit params limit
 //@   ensures floor: this.limit == max(1, limit) && this.busy == old(this.busy)
 //@   assigns this.limit
+// Releasing a token gives one unit back to whichever strategy issued it: from the caller's side
+// every strategy's busy count may have changed (the per-strategy release closures carry the exact
+// delta, contracts one_unit in package strategy; the round trips are lemma clients there).
 //@ func core.StrategyToken.Release
-//@   assigns nothing
+//@   assigns all core.Strategy.busy
 //@ func core.Limiter.Acquire params ctx
 //@   ensures iff: ok <==> listener != nil
 //@ func core.Listener.OnSuccess
@@ -47,6 +50,7 @@ package limiter
 //@   ensures[C01,C02,C09] fields: ret0 != nil ==> ret1 == nil && ret0.limit == limit && ret0.strategy == strategy && ret0.minWindowTime == minWindowTime && ret0.maxWindowTime == maxWindowTime && ret0.minRTTThreshold == minRTTThreshold && ret0.windowSize == windowSize && fresh(ret0.inFlight) && *ret0.inFlight == 0 && ret0.nextUpdateTime == 0 && ret0.sample.sampleCount == 0 && ret0.sample.didDrop == false
 
 //@ func (*DefaultLimiter).Acquire
+//@   refines[C02] core.Limiter.Acquire
 //@   requires gauge_no_overflow: 0 <= *l.inFlight && *l.inFlight < 1<<62
 //@   maintains[C01,C02] l
 //@   ensures[C02] listener_iff_ok: ret1 <==> ret0 != nil
@@ -157,6 +161,7 @@ package limiter
 //@   ensures[C02] delegate_is_ours: ncallsIter("core.Limiter.Acquire") >= 1 ==> callrecvIter("core.Limiter.Acquire", 0) == l.delegate
 
 //@ func (*BlockingLimiter).Acquire
+//@   refines[C02] core.Limiter.Acquire
 //@   maintains l
 //@   ensures[C02] listener_iff_ok: ret1 <==> ret0 != nil
 //@   ensures[C02] follows_tryAcquire: ncalls("(*limiter.BlockingLimiter).tryAcquire") == 1 && (ret1 <==> callres("(*limiter.BlockingLimiter).tryAcquire", 0, 1))
@@ -172,6 +177,7 @@ package limiter
 //@   ensures[C02,C19] grant_is_the_delegates: ok ==> (ncallsIter("core.Limiter.Acquire") == 1 && listener == callresIter("core.Limiter.Acquire", 0, 0)) || (ncallsIter("core.Limiter.Acquire") == 2 && listener == callresIter("core.Limiter.Acquire", 1, 0))
 
 //@ func (*DeadlineLimiter).Acquire
+//@   refines[C02] core.Limiter.Acquire
 //@   maintains l
 //@   ensures[C02] listener_iff_ok: ok <==> listener != nil
 //@   ensures[C02] follows_tryAcquire: ncalls("(*limiter.DeadlineLimiter).tryAcquire") == 1 && (ok <==> callres("(*limiter.DeadlineLimiter).tryAcquire", 0, 1))
@@ -286,6 +292,7 @@ package limiter
 //@   owns[C17]
 
 //@ func (*QueueBlockingLimiter).Acquire
+//@   refines[C02] core.Limiter.Acquire
 //@   maintains l
 //@   ensures[C02] listener_iff_ok: ret1 <==> ret0 != nil
 //@   ensures[C02] follows_tryAcquire: ncalls("(*limiter.QueueBlockingLimiter).tryAcquire") == 1 && (ret1 <==> callres("(*limiter.QueueBlockingLimiter).tryAcquire", 0, 0) != nil)
